@@ -164,7 +164,11 @@ package core
 //@ event InitFlowCancel = call go.amzn.com/lambda/core.(*initFlowSynchronizationImpl).CancelWithError
 
 //@ event DeadlineHit = recv call:context.(Context).Done
+// C11 ("no waiter stays blocked once its condition holds", for the flow objects): when the deadline wins, the caller cancels the
+// gates and returns without receiving; the helper that waited on the gate is woken by the cancellation and must be able to
+// leave its result behind: the result channel has room for it
 //@ func (*initFlowSynchronizationImpl).AwaitRuntimeReadyWithDeadline$1
+//@   requires [C11: the-helper-can-leave-its-result-without-a-receiver] gm(chancap, errorChan) >= 1
 //@   requires s != nil && initFlowWired(s)
 //@ func (*initFlowSynchronizationImpl).AwaitRuntimeReadyWithDeadline
 //@   requires ref(ctx) != 0
